@@ -27,6 +27,9 @@ import re
 from vlib import facts as F, flow, wake
 from vlib.core import site_of
 
+# the overflow list and the stall-detection bookkeeping of the buffers have a sibling without the stall-detection
+# feature (the one the helper image ships): config N compiles it
+CONFIGS_QUICK = ["Q", "N"]
 LEVEL = "other"
 EXPLANATION = "C14: WAKE-1 may-analysis, waker-slot census, avoid-reachability PAIR rules for state-change => wake, guard polarity in next_op, who-may-write census of the cursors with expression-shape checks."
 
@@ -48,6 +51,8 @@ def run(ctx):
     ring_ops(ctx, facts)
     waker_store(ctx, facts)
     waker_ring(ctx, facts)
+    waker_overflow(ctx, facts)
+    overflow_drain(ctx, facts)
     from rules import C13
     C13.spare(ctx, facts)             # the receive side's reassembly of messages from chunks
     ctx.assume("std::task::Waker, std::sync::Mutex and AtomicUsize behave as documented")
@@ -740,3 +745,181 @@ def waker_ring(ctx, facts):
     except NoEval as ex:
         bad = f"cannot evaluate ({ex})"
     ctx.ob("SLOT-ring", "window-maps-injectively-to-slots", bad is None, "ring slots are used exactly for next < i <= next + len, one slot per record; the rest overflows" if bad is None else bad, site_of(b, ring[0][0]))
+
+
+def waker_overflow(ctx, facts):
+    """A request further ahead than the window parks its waker on the overflow list, which wake_next drains as the
+    cursor advances.  Several such requests can be outstanding at once (from different tasks), so the list has to keep
+    one waker per request: writing the new waker over an entry that was not looked up by this request's index drops the
+    registration of whoever owned that entry, and when the cursor reaches that record nobody is woken.  The list has
+    two sibling element types (with and without the stall-detection feature); the helper image is built without it."""
+    ctx.rule("OVERFLOW-append: in OperatingState::add_waker the given waker reaches overflow_wakers only by push, or by overwriting the entry returned by a search whose predicate is `entry index == i`; nothing else in add_waker shrinks or overwrites the list")
+    b = facts.bodies.get("helpers::buffers::unordered_receiver::OperatingState::<S, C>::add_waker")
+    if b is None:
+        return ctx.missing("OVERFLOW-append", "OperatingState::add_waker")
+    ctx.count(bodies=1)
+    old = flow.CLOSURE_DEFS
+    flow.CLOSURE_DEFS = True
+    try:
+        from rules.C06 import upvar_sources
+        pushes, bad = [], []
+
+        def keyed(e):
+            """does expression e select its element through find/position(|entry| entry.<field> == i) ?"""
+            for sub in malsec_leaves_all(e):
+                if sub[0] == "call" and re.search(r"Iterator::(find|position|rposition)$", sub[1]) and len(sub[2]) >= 2:
+                    cl = sub[2][1]
+                    if cl[0] == "agg" and isinstance(cl[1], tuple) and cl[1][0] == "closure":
+                        cb = facts.bodies.get(cl[1][1])
+                        if cb is None:
+                            continue
+                        ups = upvar_sources(facts, b, cl[1][1])
+                        ret = flow.expr_of(cb, {"cp": [0]}, max_depth=8)
+                        if ret[0] == "bin" and ret[1] == "Eq":
+                            sides = [ret[2], ret[3]]
+                            up = [s for s in sides if s[0] == "upvar" and ups.get(s[1]) == ("arg", 2)]
+                            it = [s for s in sides if s[0] == "arg" and s[1] == 2]
+                            if up and it:
+                                return True
+            return False
+
+        for bb, t in b.calls():
+            fn = F.callee(t)[0] or ""
+            args = [flow.expr_of(b, x, max_depth=20) for x in t["args"]]
+            if not args or "overflow_wakers" not in str(args[0]):
+                continue
+            if re.search(r"Vec::<T, A>::push$", fn):
+                if "('arg', 3)" in str(args[1:]):
+                    pushes.append(bb)
+                continue
+            if re.search(r"(Clone::clone_from|Option::<T>::(replace|insert)|mem::(replace|swap))$", fn):
+                if not keyed(args[0]):
+                    bad.append((bb, f"{fn.split('::')[-1]} overwrites an overflow entry that was not looked up by this request's index"))
+                continue
+            if re.search(r"Vec::<T, A>::(pop|clear|truncate|remove|swap_remove|drain|retain|retain_mut|dedup\w*|split_off)$|mem::take$", fn):
+                bad.append((bb, f"{fn.split('::')[-1]} removes parked wakers while a new one is being registered"))
+        # plain assignments into an element of the list (`*slot = waker.clone()`)
+        for bb, idx, st in b.iter_assigns():
+            if len(st["p"]) > 1 and st["p"][1] == "*" and st["r"]["k"] in ("use", "agg"):
+                dst = flow.expr_of(b, {"cp": [st["p"][0]]}, max_depth=20)
+                if "overflow_wakers" in str(dst) and "Vec::<T, A>::push" not in str(dst) and not keyed(dst):
+                    bad.append((bb, "an overflow entry that was not looked up by this request's index is assigned"))
+        ok = bool(pushes) and not bad
+        ctx.ob("OVERFLOW-append", "add_waker:far-ahead-wakers-accumulate", ok,
+               "far-ahead wakers are appended (or refresh the entry with the same index); every outstanding request keeps its registration" if ok else
+               ("no push of the given waker onto overflow_wakers" if not pushes else f"{bad[0][1]}: with two far-ahead requests outstanding, the other one loses its waker and is never woken when the cursor reaches it"),
+               site_of(b, bad[0][0]) if bad else site_of(b))
+    finally:
+        flow.CLOSURE_DEFS = old
+
+
+def malsec_leaves_all(e):
+    """every sub-expression of e (pre-order)"""
+    yield e
+    if isinstance(e, tuple):
+        for x in e[1:]:
+            if isinstance(x, tuple):
+                if x and isinstance(x[0], str):
+                    yield from malsec_leaves_all(x)
+                else:
+                    for y in x:
+                        if isinstance(y, tuple):
+                            yield from malsec_leaves_all(y)
+
+
+def overflow_drain(ctx, facts):
+    """wake_next is the only thing that ever wakes a request parked on the overflow list.  A request for record i parked
+    while i > next + len has to be polled again at some cursor position m with i - len <= m <= i (then it fits the ring,
+    or is served directly); otherwise the cursor reaches i with nobody to wake and stops for good.  So (a) whether the
+    list is drained may depend on nothing but the cursor and the ring size - in particular not on whether somebody
+    happened to sit in the ring slot; (b) the positions at which it is drained must hit every run of len + 1 consecutive
+    cursor values; (c) a drain wakes every parked waker."""
+    from rules.C13 import ieval, NoEval
+    ctx.rule("OVERFLOW-drain: in OperatingState::wake_next every switch that can steer around the drain of overflow_wakers is an arithmetic test of next and wakers.len(); evaluated for len = 2..9 the drained cursor positions meet every interval [i - len, i]; the drain takes the whole list and wakes every element (loop left only when the iterator is exhausted)")
+    b = facts.bodies.get("helpers::buffers::unordered_receiver::OperatingState::<S, C>::wake_next")
+    if b is None:
+        return ctx.missing("OVERFLOW-drain", "OperatingState::wake_next")
+    ctx.count(bodies=1)
+    takes = [bb for bb, t in b.calls() if re.search(r"mem::take$|Vec::<T, A>::drain$", F.callee(t)[0] or "") and "overflow_wakers" in str(flow.expr_of(b, t["args"][0], max_depth=6))]
+    if not takes:
+        return ctx.missing("OVERFLOW-drain", "take / drain of overflow_wakers in wake_next")
+    D = takes[0]
+    rets = [bb for bb in b.live_blocks() if b.term(bb)["k"] == "ret"]
+    # (a) gates: switches that can reach D but have a successor from which D is no longer reachable
+    reach_D = {bb for bb in b.live_blocks() if D in b.reachable(bb)}
+    guards = {}
+    for tgt, f in flow.edge_guards(b):
+        guards.setdefault(tgt, []).append(f)
+    OPS = {"Ge": lambda a, c: a >= c, "Gt": lambda a, c: a > c, "Le": lambda a, c: a <= c, "Lt": lambda a, c: a < c, "Eq": lambda a, c: a == c, "Ne": lambda a, c: a != c}
+    gates, opaque = [], []
+    for s in sorted(reach_D):
+        if b.term(s)["k"] != "switch" or s == D:
+            continue
+        succs = b.succs(s)
+        live = [x for x in succs if b.term(x)["k"] != "unreachable"]
+        away = [x for x in live if x not in reach_D]
+        if not away:
+            continue
+        toward = [x for x in live if x in reach_D]
+        fs = [f for x in toward for f in guards.get(x, []) if f[0] in OPS]
+        if len(toward) == 1 and fs:
+            gates.append((s, fs[0]))
+        elif len(toward) == 1 and any(f[0] == "false" and re.search(r"::is_empty$", str(f[1][1])) and "overflow_wakers" in str(f[1]) for f in guards.get(toward[0], []) if f[1][0] == "call"):
+            continue            # "nothing parked" steers around the drain: harmless
+        else:
+            opaque.append(s)
+    if opaque:
+        ctx.ob("OVERFLOW-drain", "wake_next:drain-depends-on-cursor-only", False,
+               "a test that is not arithmetic in the cursor and the ring size can skip the drain of the overflow list (for instance: nobody was parked in the ring slot of the new cursor position): far-ahead requests then miss the only wake-up that would have let them move into the ring", site_of(b, opaque[0]))
+    else:
+        ctx.ob("OVERFLOW-drain", "wake_next:drain-depends-on-cursor-only", True, f"{len(gates)} arithmetic gate(s) in front of the drain", site_of(b, D))
+    # (b) cadence
+    NEXT, LEN = ("arg", 1, "next"), ("call", "std::vec::Vec::<T, A>::len", (("arg", 1, "wakers"),))
+    bad = None
+    if not opaque:
+        try:
+            for ln in range(2, 10):
+                drained = set()
+                for m in range(1, 6 * ln + 8):
+                    env = {NEXT: m, LEN: ln}
+                    if all(OPS[op](ieval(l, env), ieval(r, env)) for s, (op, l, r) in gates):
+                        drained.add(m)
+                for i in range(ln + 2, 5 * ln + 6):
+                    if not any(m in drained for m in range(max(1, i - ln), i + 1)):
+                        bad = f"ring of {ln}: a request for record {i} parked on the overflow list is not woken at any cursor position in [{i - ln}, {i}] (drained at {sorted(drained)[:6]}...): the cursor reaches {i} with that request still parked and nobody to wake"
+                        break
+                if bad:
+                    break
+        except NoEval as ex:
+            bad = f"cannot evaluate the drain condition ({ex})"
+        ctx.ob("OVERFLOW-drain", "wake_next:cadence-meets-every-window", bad is None, "drain positions meet every run of len + 1 cursor values for len = 2..9" if bad is None else bad, site_of(b, gates[0][0]) if gates else site_of(b, D))
+    # (c) every parked waker is woken
+    nxt = [(bb, t) for bb, t in b.calls() if re.search(r"Iterator::next$", F.callee(t)[0] or "") and "overflow_wakers" in str(flow.expr_of(b, t["args"][0], max_depth=10))]
+    fe = [(bb, t) for bb, t in b.calls() if re.search(r"Iterator::for_each$", F.callee(t)[0] or "") and "overflow_wakers" in str(flow.expr_of(b, t["args"][0], max_depth=10))]
+    wk = [(bb, t) for bb, t in b.calls() if re.search(r"Waker::wake(_by_ref)?$", F.callee(t)[0] or "") and "overflow_wakers" in str(flow.expr_of(b, t["args"][0], max_depth=14))]
+    why = None
+    if nxt:
+        N = nxt[0][0]
+        if not wk:
+            why = "the loop over the drained list does not wake its elements"
+        else:
+            W = wk[0][0]
+            # from the wake call, a return must not be reachable without asking the iterator again
+            esc = [r for r in rets if r in b.reachable(W, avoid=frozenset([N]))]
+            # and the wake must sit on every path from `next() -> Some` back to next()
+            sw = flow.next_switch(b, b.term(N)["t"]) if "t" in b.term(N) else None
+            some = []
+            if sw is not None:
+                some = [x for x in b.succs(sw) if b.term(x)["k"] != "unreachable" and W in b.reachable(x, avoid=frozenset([N]))]
+                skip = [x for x in some if N in b.reachable(x, avoid=frozenset([W])) and x != W]
+                if skip:
+                    why = "a parked waker can be taken from the drained list and dropped without being woken"
+            if esc and why is None:
+                why = "the loop over the drained list can stop before the iterator is exhausted: the remaining parked wakers are dropped unwoken"
+    elif fe:
+        cl = flow.expr_of(b, fe[0][1]["args"][1], max_depth=6)
+        if "Waker::wake" not in str(cl) and not any("Waker::wake" in (F.callee(t)[0] or "") for k, cb in facts.bodies.items() if k.startswith(b.path + "::{closure") for _, t in cb.calls()):
+            why = "for_each over the drained list does not wake its elements"
+    else:
+        why = "no loop over the drained overflow list found"
+    ctx.ob("OVERFLOW-drain", "wake_next:wakes-every-parked-waker", why is None, "the whole list is taken and each element woken" if why is None else why, site_of(b, D))
